@@ -21,6 +21,7 @@ func runC09(p *Prog, r *Report) {
 	c09R3(p, r)
 	c09R4(p, r)
 	c09R5(p, r)
+	c09R6(p, r)
 }
 
 func routeConfigFields(p *Prog) (fields []string, docs map[string]string) {
@@ -859,4 +860,127 @@ func c09PortSiblings(p *Prog, r *Report, rule, prop string) {
 				"(*portset.PortSet).Contains panics on port 0 while the sibling representations (single port, range set) answer false; the port comes from the request unchecked, so a peer that names port 0 crashes the process whenever the route's port list needs the bit-set representation (more than 16 ranges)")
 		}
 	})
+}
+
+// c09R6: a route that names a resolver uses that resolver, and only that one, for every
+// criterion that resolves names; an unknown name is refused. Decided on RouteConfig.Route: on
+// the edge where the configured name is not empty, no statement that hands the resolver list to
+// a criterion is reachable without first passing the lookup of the name (whose not-found edge
+// ends in an error) and the replacement of the list by the looked-up resolver.
+func c09R6(p *Prog, r *Report) {
+	const rule = "C09-R6"
+	r.Rule(rule, "the route's own resolver is honoured: in RouteConfig.Route, from the edge on which rc.Resolver is non-empty, every use of the resolver list by a criterion lies behind the assignment that replaces the list with the resolver looked up under that name, and the lookup's not-found edge only leads to an error")
+	fc := p.Func("router", "RouteConfig", "Route")
+	info := fc.Info()
+	// the resolver-list parameter: the slice parameter whose element type is the resolver interface
+	var list types.Object
+	var resolverMap types.Object
+	for i := 0; fc.ParamObj(i) != nil; i++ {
+		o := fc.ParamObj(i)
+		switch t := o.Type().Underlying().(type) {
+		case *types.Slice:
+			if namedTypeName(t.Elem()) == "SimpleResolver" {
+				list = o
+			}
+		case *types.Map:
+			if namedTypeName(t.Elem()) == "SimpleResolver" {
+				resolverMap = o
+			}
+		}
+	}
+	if list == nil || resolverMap == nil {
+		r.Fail(rule, "router.(*RouteConfig).Route:shape", p.posStr(fc.Body.Pos()), "undecided: resolver list / resolver map parameters not found")
+		return
+	}
+	nonEmpty := fc.EqStrConstEdges(func(e ast.Expr) bool {
+		sel, ok := ast.Unparen(e).(*ast.SelectorExpr)
+		return ok && sel.Sel.Name == "Resolver" && objOf(info, sel.X) == fc.RecvObj()
+	}, "", false)
+	// the lookup and the replacement
+	var lookupV, replaceV = -1, -1
+	var okObj, resObj types.Object
+	for _, v := range fc.G.V {
+		as, ok := v.Node.(*ast.AssignStmt)
+		if !ok || len(as.Rhs) != 1 {
+			continue
+		}
+		if ix, ok := ast.Unparen(as.Rhs[0]).(*ast.IndexExpr); ok && objOf(info, ix.X) == resolverMap && len(as.Lhs) == 2 {
+			if sel, ok := ast.Unparen(ix.Index).(*ast.SelectorExpr); ok && sel.Sel.Name == "Resolver" && objOf(info, sel.X) == fc.RecvObj() {
+				lookupV = v.ID
+				resObj, okObj = objOf(info, as.Lhs[0]), objOf(info, as.Lhs[1])
+			}
+		}
+	}
+	for _, v := range fc.G.V {
+		as, ok := v.Node.(*ast.AssignStmt)
+		if !ok || len(as.Lhs) != 1 || len(as.Rhs) != 1 || objOf(info, as.Lhs[0]) != list {
+			continue
+		}
+		if cl, ok := ast.Unparen(as.Rhs[0]).(*ast.CompositeLit); ok && len(cl.Elts) == 1 && resObj != nil && objOf(info, cl.Elts[0]) == resObj {
+			replaceV = v.ID
+		}
+	}
+	okLookup := lookupV >= 0 && replaceV >= 0 && okObj != nil
+	if okLookup {
+		for _, e := range fc.TestEdges(func(x ast.Expr) bool { return objOf(info, x) == okObj }, WantFalse) {
+			if !errorOnlyFrom(fc, e) {
+				okLookup = false
+			}
+		}
+		found := fc.TestEdges(func(x ast.Expr) bool { return objOf(info, x) == okObj }, WantTrue)
+		if !fc.G.EdgeDominates(found, replaceV) {
+			okLookup = false
+		}
+	}
+	r.Check(okLookup, rule, "router.(*RouteConfig).Route:named-resolver-looked-up", p.posStr(fc.Body.Pos()), "the name is looked up, an unknown name is an error, and the list is replaced by the resolver found", "the route's resolver name is not looked up with an unknown name refused and the resolver list replaced by the result")
+	// uses of the list by criteria, reachable on the non-empty edge around the replacement
+	bad := ""
+	n := 0
+	if len(nonEmpty) > 0 && replaceV >= 0 {
+		var starts []int
+		for _, e := range nonEmpty {
+			starts = append(starts, e.To)
+		}
+		reach := fc.G.Reach(starts, func(v *Vertex) bool { return v.ID == replaceV }, nil)
+		for _, v := range fc.G.V {
+			if v.Node == nil || v.ID == replaceV || !usesObj(info, v.Node, list, false) {
+				continue
+			}
+			// only uses that hand the list on (composite literal element / call argument), not len() tests
+			hands := false
+			inspectNoLit(v.Node, func(x ast.Node) bool {
+				switch y := x.(type) {
+				case *ast.CompositeLit:
+					for _, el := range y.Elts {
+						val := el
+						if kv, ok := el.(*ast.KeyValueExpr); ok {
+							val = kv.Value
+						}
+						if objOf(info, val) == list {
+							hands = true
+						}
+					}
+				case *ast.CallExpr:
+					if id, ok := ast.Unparen(y.Fun).(*ast.Ident); ok && id.Name == "len" {
+						return false
+					}
+					for _, a := range y.Args {
+						if objOf(info, a) == list {
+							hands = true
+						}
+					}
+				}
+				return true
+			})
+			if !hands {
+				continue
+			}
+			n++
+			if reach[v.ID] {
+				bad = exprStr(v.Node)
+			}
+		}
+	}
+	r.Check(len(nonEmpty) > 0 && n > 0 && bad == "", rule, "router.(*RouteConfig).Route:criteria-use-the-named-resolver", p.posStr(fc.Body.Pos()), fmt.Sprintf("all %d uses of the resolver list by criteria lie behind the replacement when a resolver is named", n),
+		"with a resolver named on the route, a criterion can still be given the global resolver list ("+bad+"): the route resolves through resolvers it was told not to use, and an unknown resolver name goes unnoticed")
 }
